@@ -814,7 +814,13 @@ def r8_constants(ctx, rule):
     yq = DET + 'year_detection.py::detect_year'
     yfn = ctx.fn(yq)
     txt = TU(yfn)
-    yok = "year_prefix = ['19', '20']" in txt and "(working_string[start_index:start_index + 4], 'Y1')" in txt \
+    ystores0 = stores_in(yfn)
+    pref0 = [v for lst in ystores0.values() for s_, v in lst if isinstance(v, (ast.List, ast.Tuple)) and v.elts
+             and all(isinstance(const(e), str) and const(e).isdigit() for e in v.elts)]
+    pref0 += [n.iter for n in walk_local(yfn) if isinstance(n, ast.For) and isinstance(n.iter, (ast.List, ast.Tuple)) and n.iter.elts
+              and all(isinstance(const(e), str) and const(e).isdigit() for e in n.iter.elts)]
+    pref_ok = len(pref0) == 1 and sorted(const(e) for e in pref0[0].elts) == ['19', '20']
+    yok = pref_ok and "(working_string[start_index:start_index + 4], 'Y1')" in txt \
         and 'working_string[start_index + 2].isdigit()' in txt and 'working_string[start_index + 3].isdigit()' in txt \
         and 'working_string[start_index - 1].isdigit()' in txt and 'working_string[start_index + 4].isdigit()' in txt \
         and 'len(working_string) < start_index + 4' in txt
